@@ -79,7 +79,7 @@ def c25(res, tier, seed):
     tours = [os.path.join(scratch(), "c25-%d.tour" % i) for i in range(len(runs))]
     vlib.spec_dir()
     with cf.ThreadPoolExecutor(max_workers=3) as ex:
-        futs = [ex.submit(tlc, m, c, timeout=3000, emit_to=tours[i]) for i, (m, c, _) in enumerate(runs)]
+        futs = [ex.submit(tlc, m, c, workers=2, timeout=3000, emit_to=tours[i]) for i, (m, c, _) in enumerate(runs)]
         rs = [f.result() for f in futs]
     for r, (_, _, label) in zip(rs, runs):
         res.add_tlc(r, label)
@@ -99,3 +99,99 @@ def c25(res, tier, seed):
                 "unknown sets, validated by Trace_Text (the specification's decoder applied to the real encoder's output)")
     res.assumptions.append("the exact escape chosen by the encoder, the rejection of ill-formed literals and the structure of the "
                            "unknown-field rendering are predicted, not demanded (reported as drift)")
+
+
+# ============================================================================ C39
+def _k39(e):
+    if e["op"] == "sweep32":
+        return ["sweep32", e["sign"], e["exp"]]
+    v = e.get("v", [])
+    kind = e["kind"]
+    if kind in ("float", "double"):
+        if kind == "float":
+            ex = ((v[3] & 127) << 1) | (v[2] >> 7)
+            mz = (v[2] & 127) == 0 and v[1] == 0 and v[0] == 0
+            top = 255
+        else:
+            ex = ((v[7] & 127) << 4) | (v[6] >> 4)
+            mz = (v[6] & 15) == 0 and not any(v[:6])
+            top = 2047
+        cls = ("inf" if mz else "nan") if ex == top else ("zero" if mz else "sub") if ex == 0 else "norm"
+        return [kind, e["fmt"], e.get("hs", 0), cls, v[-1] >> 7, ex if kind == "float" else ex >> 3]
+    if kind in ("string", "bytes"):
+        cls = sorted({("c0" if c < 32 else "q" if c in (34, 39, 92) else "asc" if c < 127 else "hi") for c in v})
+        return [kind, e["fmt"], cls, min(len(v), 5)]
+    if kind == "enum":
+        return [kind, e["fmt"], e.get("idx"), len(e.get("enum", []))]
+    nz = [i for i, c in enumerate(v) if c]
+    return [kind, e["fmt"], (nz[-1] if nz else -1), (v[-1] >> 7) if v else 0]
+
+
+@check("C39")
+def c39(res, tier, seed):
+    b = build_harness(("text",))
+    q = tier == "quick"
+    full = os.environ.get("VERIF_FULL_FLOAT32") == "1"
+    stride = 0 if q else (1 if full else 64)       # thorough: every 64th mantissa of each of the 512 strata (2^26 patterns)
+    tour = os.path.join(scratch(), "c39.tour")
+    r = tlc("MC_DefVal", cfg({"Tier": '"%s"' % tier, "MaxTok": 2 if q else 3, "SweepStride": stride, "SweepStart": seed * 7919},
+                             invariants=["Laws", "ExactOnce"], emit="Emit"), emit_to=tour, timeout=3000)
+    res.add_tlc(r, "every integer boundary 2^n-1, 2^n, 2^n+1 at every width/signedness, byte strings of <= %d corner tokens, enum "
+                   "shapes, float/double bit-pattern grids, exact decimal texts; laws: Parse(Format(v)) = v per kind, canonical "
+                   "numerals, agreement with native integers, range rejection, C-escape printable and readable as one text-format "
+                   "value, NaN canonicalisation, the two exact float constructions agree" % (2 if q else 3))
+    res.exhaustive = True
+    # sweep lines are long-running: split them off so that failing patterns can be turned into single cases
+    plain, sweeps = tour + ".plain", tour + ".sweep"
+    ns = 0
+    with open(plain, "w") as fp, open(sweeps, "w") as fs:
+        for line in open(tour):
+            if '"sweep32"' in line:
+                fs.write(line); ns += 1
+            else:
+                fp.write(line)
+    replay_tour(res, b, "defval", plain, key=_k39)
+    if ns:
+        outp = sweeps + ".out"
+        info = json.loads(vlib.harness(b, ["exec", "defval", sweeps, outp], timeout=7200).stdout.strip().splitlines()[-1])
+        vlib.log("float32 sweep: %s" % info)
+        swept, cands = 0, []
+        for ev in vlib.read_ndjson(outp):
+            swept += ev["out"].get("n", 0)
+            res.distinct.add(json.dumps(_k39(ev)))
+            if ev.get("diff"):
+                cands += ev["out"].get("fails", [])
+                if not ev["out"].get("fails"):
+                    res.fail(dict(ev, _module="defval"), "sweep: real code disagrees with the specification on %s" % ev["diff"])
+        res.tour_cases += ns
+        res.evaluations += swept
+        res.extra["float32_patterns_swept"] = swept
+        res.extra["float32_sweep"] = "all 2^32 patterns" if full else "every %dth mantissa of each (sign, exponent) stratum, offset by seed" % stride
+        if cands:
+            # the verdict on each candidate comes from the specification (Trace_DefVal), one ordinary event per pattern and format
+            cp = os.path.join(scratch(), "c39-cands.ndjson")
+            with open(cp, "w") as fh:
+                for bits in cands[:200]:
+                    for f in ("desc", "gotag"):
+                        fh.write(json.dumps(dict(op="rt", kind="float", fmt=f, v=bits, enum=[], idx=0, hs=0, str=[])) + "\n")
+            tr = cp + ".out"
+            vlib.harness(b, ["exec", "defval", cp, tr])
+            total, bad = vlib.validate_trace("Trace_DefVal", tr)
+            events = list(vlib.read_ndjson(tr))
+            for i in bad:
+                res.fail(dict(events[i], _module="defval", _trace="Trace_DefVal"),
+                         "sweep candidate: specification rejects the recorded event")
+            res.trace_events += total
+    n = 4000 if q else 150000
+    drive_and_validate(res, b, "defval", "Trace_DefVal", seed, n, key=_k39)
+    res.rule = ("tour: TLC enumerates the value space per kind (all 15 integer kinds, bool, enum shapes, string, bytes, float, double) "
+                "x both formats with the text the specification writes; the real Marshal/Unmarshal, the real Unmarshal of the "
+                "specification's text and NewFile/ToFileDescriptorProto/NewFile must reproduce the value; distinct = (kind, format, "
+                "magnitude or character or float class) classes; driver: seeded random values incl. hard float patterns and their "
+                "neighbours, validated by Trace_DefVal (the specification's Parse applied to the real Marshal output)"
+                + ("; float32: stratified sweep through the real code, candidates re-judged by the specification" if ns else ""))
+    res.assumptions.append("float <-> decimal conversion is an uninterpreted relation constrained by Parse(Format(bits)) = Canon(bits); "
+                           "the specification defines float values only for decimal texts that denote a binary float exactly")
+    if not full:
+        res.notes.append("float32 space: %s; set VERIF_FULL_FLOAT32=1 with --tier thorough for all 2^32 patterns; float64 is sampled"
+                         % ("hard patterns, class grid and random patterns (quick)" if q else "2^26 stratified patterns + grid + random"))
